@@ -4,6 +4,7 @@ import (
 	"fmt"
 	"net/mail"
 	"sync"
+	"sync/atomic"
 	"time"
 )
 
@@ -42,6 +43,7 @@ func RunParallel(w *World, sessions [][]PTxn, barrier bool) (acked []*EMsg, prob
 			}
 		}
 	}
+	released := make([]atomic.Int32, rounds)
 	var wg sync.WaitGroup
 	for si, txns := range sessions {
 		wg.Add(1)
@@ -104,6 +106,17 @@ func RunParallel(w *World, sessions [][]PTxn, barrier bool) (acked []*EMsg, prob
 				arrived = ti + 1
 				if barrier {
 					arrive[ti].Wait()
+					// the wait group wakes its waiters one by one: a spin on a counter lets the
+					// sessions of the round go within nanoseconds of each other
+					n := int32(0)
+					for _, s2 := range sessions {
+						if ti < len(s2) {
+							n++
+						}
+					}
+					released[ti].Add(1)
+					for d := time.Now().Add(50 * time.Millisecond); released[ti].Load() < n && time.Now().Before(d); {
+					}
 				}
 				if err := cl.Write(wire[len(wire)-3:]); err != nil {
 					problem("session %d: writing the final dot: %v", si, err)
